@@ -248,6 +248,8 @@ fn process_dir(
                         open_dirs.resize(depth, None);
                     }
                     for (up, dir) in entry.path().ancestors().skip(1).take(depth).enumerate() {
+                        // (The starting point as spelled: `link/` is not `link`.)
+                        let dir = if up + 1 == depth { root } else { dir };
                         let slot = &mut open_dirs[depth - 1 - up];
                         if slot.as_ref().is_some_and(|(path, _)| path == dir) {
                             break;
